@@ -1327,9 +1327,14 @@ class BaseImage(metaclass=ImageMeta):
         # A parameter of zero is taken to be one by terminal emulators
         cursor_up = CURSOR_UP % (lines - 1) if lines > 1 else ""
         cursor_down = CURSOR_DOWN % lines
+        # `False` while a frame is being written i.e the cursor may be on any line
+        frame_written = True
 
         try:
-            print(next(image_it._animator), end="", flush=True)  # First frame
+            frame = next(image_it._animator)  # First frame
+            frame_written = False
+            print(frame, end="", flush=True)
+            frame_written = True
 
             # Render next frame during current frame's duration
             start = time.time()
@@ -1341,7 +1346,9 @@ class BaseImage(metaclass=ImageMeta):
                 # move cursor up to the beginning of the first line of the image
                 # and print the new current frame.
                 self._clear_frame()
+                frame_written = False
                 print("\r", cursor_up, frame, sep="", end="", flush=True)
+                frame_written = True
 
                 # Render next frame during current frame's duration
                 start = time.time()
@@ -1354,9 +1361,11 @@ class BaseImage(metaclass=ImageMeta):
             image_it.close()
             self._close_image(img)
             self._seek_position = prev_seek_pos
-            # Move the cursor to the last line of the image to prevent "overlaid"
-            # output in the terminal
-            print(cursor_down, end="")
+            # If interrupted while writing a frame, move the cursor past the last line
+            # of the image to prevent "overlaid" output in the terminal.
+            # Otherwise, the cursor is already on the last line.
+            if not frame_written:
+                print(cursor_down, end="")
 
     def _format_render(
         self,
